@@ -687,7 +687,9 @@ def oracle_c20(case, obs):
             return 'slice-axis: header says axis %s, which is an in-plane axis (rows along %s, columns along %s)' % (sl_ax, row_axis, col_axis)
     # freq / phase
     phases = set(f['tags'].get('InPlanePhaseEncodingDirection') for f in case['files'])
-    if len(phases) == 1 and None not in phases:
+    if len(phases) == 1 and None not in phases and list(phases)[0] not in ('ROW', 'COL'):
+        pass             # a value outside the DICOM vocabulary: the property is silent
+    elif len(phases) == 1 and None not in phases:
         p = list(phases)[0]
         iop = [Fraction(x) for x in f0['iop']]
         rowdir, coldir = iop[0:3], iop[3:6]           # DICOM: direction of a row (= increasing column index), of a column
@@ -695,9 +697,6 @@ def oracle_c20(case, obs):
         if fq is None or ph is None:
             return 'freq-phase: unique phase encoding direction %r but header has freq=%s phase=%s' % (p, fq, ph)
         A = [[Fraction(x) for x in row] for row in aff]
-        wph = ras([A[r][ph] for r in range(3)])
-        wfq = ras([A[r][fq] for r in range(3)])
-        wph, wfq = ras(ras(wph)), ras(ras(wfq))
         # affine columns are in RAS: compare with the RAS image of the DICOM directions
         if not parallel([A[r][ph] for r in range(3)], ras(want_ph), exact) or not parallel([A[r][fq] for r in range(3)], ras(want_fq), exact):
             return 'freq-phase: phase encoding %r: header phase axis %s / freq axis %s do not point along the source directions' % (p, ph, fq)
